@@ -94,17 +94,22 @@ def is_type(value, name, opts):
     raise ValueError(f"unknown type {name!r}")
 
 
-def declares_default(schema, depth=0):
-    """A default on the schema, or reachable through composition keywords."""
+def declares_default(schema, depth=0, opts=None, base=None):
+    """A default on the schema, or reachable through $ref / composition keywords."""
     if not isinstance(schema, dict) or depth > 20:
         return False
+    if "$ref" in schema and opts is not None:
+        try:
+            target, doc = resolve_ref(schema["$ref"], base, opts)
+        except (KeyError, IndexError, ValueError, TypeError):
+            return False
+        return declares_default(target, depth + 1, opts, doc)
     if "default" in schema:
         return True
     for key in ("anyOf", "oneOf", "allOf"):
         for sub in schema.get(key, []) or []:
-            if declares_default(sub, depth + 1):
+            if declares_default(sub, depth + 1, opts, base):
                 return True
-    t = schema.get("type")
     return False
 
 
@@ -224,7 +229,7 @@ def validate(schema, value, opts=None, trace=None, base=None, _depth=0):
             if not missing:
                 note("required", T)
             elif opts.waiver and all(
-                k in props and declares_default(props[k]) for k in missing
+                k in props and declares_default(props[k], 0, opts, base) for k in missing
             ):
                 note("required", E)
             else:
